@@ -239,5 +239,14 @@ example : Same (V := Int) ⟨3, 1⟩ ⟨-1, fun x => x != -1⟩
     ⟨#[4, -2, -2], #[-1, -1, 7, -1, -1, 9]⟩ ⟨#[2, -2, 0], #[-1, -1, -1, 9, 7, -1]⟩ := by
   unfold Same; decide
 
+/-! ### C10 at the WORLD level
+
+The world-level theorems — content-equal worlds (`World.SameW`: the same names bound to maps with
+the same configuration / kind / sentinel and `Same` states) are indistinguishable by any protocol
+history: `C10.same_step`, `C10.same_history`, `C10.diff_same`, `C10.same_routes`,
+`C10.upd_routes_sameW` — are in HealSparse/Props/C10World.lean (same namespace).  They cannot
+live in this file: the lemma files they rest on (Lemmas/SameWorld.lean, SameOps.lean, and the
+API-level files those import) import this file for `Same` and the `same_*` theorems above. -/
+
 end C10
 end HS
